@@ -47,6 +47,8 @@ def mirrors_for(unit, qual, kind='body'):
             view, meth = parts[-2], parts[-1]
             if meth == 'split':
                 return ['k_split_contract']
+            if meth in ('split_payload_extension', 'payload', 'extension') and view in ('TimeExceededPacket', 'DestinationUnreachablePacket'):
+                return ['k_%s%s_split_contract' % (pre, view)] + ([] if post else ['k_%s%s_nopanic' % (pre, view)])
             if meth == 'ipv4_options_length':
                 return [] if post else ['k_Ipv4Packet_nopanic']
             if view.endswith('Iter'):
@@ -100,7 +102,8 @@ PROPS = {
         'level_text': 'split() is proved equal to a spec function written from RFC 4884 (compliant length attribute / legacy 128-octet convention) for every length and payload; lemmas: datagram and extension are disjoint in-bounds sub-ranges, compliant and legacy messages are recovered unchanged; the four split_payload_extension functions scale the length attribute by 4 (ICMPv4) / 8 (ICMPv6) for the whole range 0..=255; ExtensionObjectIter::next / MplsLabelStackIter::next yield an item iff the object header and declared length fit (resp. until the S bit), advance by the declared length / 4 octets and make progress.',
         'level_note': 'Trusted: shims as C12. Extensions::try_from (iterator adapters in trippy-core) is a bounded Kani stand-in.',
         'units': ['pkt_views'],
-        'kani': {'quick': ['k_split_contract', 'k_extobj_iter_contract', 'k_mpls_iter_contract', 'k_ExtensionsPacket_nopanic', 'k_MplsLabelStackPacket_nopanic']},
+        'kani': {'quick': ['k_split_contract', 'k_extobj_iter_contract', 'k_mpls_iter_contract', 'k_ExtensionsPacket_nopanic', 'k_MplsLabelStackPacket_nopanic',
+                           'k_icmp4_TimeExceededPacket_split_contract', 'k_icmp4_DestinationUnreachablePacket_split_contract', 'k_icmp6_TimeExceededPacket_split_contract', 'k_icmp6_DestinationUnreachablePacket_split_contract']},
         'assumptions': [],
         'explanation': 'ICMP extension parsing',
     },
